@@ -120,11 +120,16 @@ func workC15(req *Request, set []byte) {
 		}
 		api = a
 		first = apiSchemas(a)
-		t, terr := exportTerm(first)
+		t, terr := descgen.APITerm(a)
 		if terr != nil {
 			o.Extra = "dump: " + terr.Error()
 		}
 		o.Term = t
+		n := 0
+		for _, m := range first {
+			n += len(m)
+		}
+		o.Count = n
 	})
 	// the export loses nothing of the reflected schema objects but Kind / WellKnownTypeName of scalars:
 	// the reader's own objects, dumped member by member, against the dump of their ToJ5Root()
@@ -150,8 +155,12 @@ func workC15(req *Request, set []byte) {
 				if ref.To == nil {
 					continue
 				}
+				exported := ref.To.ToJ5Root()
+				for _, c := range descgen.ExportCoverage(exported) {
+					o.Viol = append(o.Viol, fmt.Sprintf("export-coverage: %s | %s.%s", c, pkg.Name, name))
+				}
 				a, err1 := descgen.InternalRootTerm(ref.To)
-				b, err2 := descgen.RootTerm(ref.To.ToJ5Root())
+				b, err2 := descgen.RootTermAsReflected(exported)
 				if err1 != nil || err2 != nil {
 					o.Viol = append(o.Viol, fmt.Sprintf("dump: %s.%s: %v %v", pkg.Name, name, err1, err2))
 					continue
